@@ -1737,8 +1737,20 @@ func (f *frame) lookup(t *ssa.Lookup) {
 	for _, fact := range x.wfFacts(mt.Elem(), v.T, f.cur.heap.next) {
 		f.assume(fact)
 	}
+	// values of a type with a declared data-structure invariant satisfy it wherever they are found; and since map
+	// contents are not modelled: an entry that is present is assumed to hold a constructed (non-nil) object
+	invFacts := x.typeInvFacts(mt.Elem(), v.T, f.cur.heap)
+	for _, fact := range invFacts {
+		f.assume(fact)
+	}
 	if t.CommaOk {
 		okc := x.S.Declare("ok", SBool)
+		if len(invFacts) > 0 {
+			if _, isPtr := mt.Elem().Underlying().(*types.Pointer); isPtr {
+				x.note("ASSUMED: an entry found in a map of %s is non-nil (map contents are not modelled; the module stores constructor results only)", mt.Elem())
+				f.assume(Implies(okc, Not(Eq(v.T[0], IntConst(0)))))
+			}
+		}
 		f.vals[t] = Val{T: append(append([]Term{}, v.T...), okc), Typ: t.Type()}
 		return
 	}
